@@ -2,6 +2,7 @@
 from __future__ import annotations
 
 import z3
+from .values import FA
 
 from .values import *
 from .pytypes import *
@@ -19,7 +20,7 @@ def split_model(B, st, s, args, kwargs, node):
     st.assume(n >= 1)
     arr = z3.Select(st.eltmap(z3.StringSort()), res.ref)
     k = z3.Int("sp!")
-    st.assume(z3.ForAll([k], z3.Implies(z3.And(k >= 0, k < n), z3.Not(z3.Contains(z3.Select(arr, k), sep.t))),
+    st.assume(FA([k], z3.Implies(z3.And(k >= 0, k < n), z3.Not(z3.Contains(z3.Select(arr, k), sep.t))),
                         patterns=[z3.Select(arr, k)]))
     st.assume(z3.Implies(z3.Not(z3.Contains(s.t, sep.t)), z3.And(n == 1, z3.Select(arr, 0) == s.t)))
     st.assume(z3.Implies(z3.Contains(s.t, sep.t), n >= 2))
